@@ -14,6 +14,10 @@ CHECKS = {
  'C08': (MC, "code items with 1..3 fully symbolic try_items and 1..2 handler lists (sizes -2..2, symbolic uleb128 fields of 1-2 bytes), padding parity both ways; reported tries/handlers/determineException compared with a declarative decode of the same bytes", '5/C08', 'symbolic execution of DalvikCode parsing + determineException'),
  'C09': (MC, "DEX()/HeaderItem on a fully symbolic 112-byte header with Adler-32 as an uninterpreted value and a MapList call-order monitor; single-byte-change lemma on the Adler-32 definition (z3 LIA); short buffers", '5/C09', 'symbolic execution of DEX.__init__/HeaderItem + z3 integer lemma'),
  'C30': (MC, "all two-letter and packed three-letter languages x absent / two-character / three-digit regions as symbolic characters: string->word, word->string and both round trips against AOSP pack/unpackLanguageOrRegion", '5/C30', 'symbolic execution over symbolic strings (SStr) and bit-vectors'),
+ 'C10': (MC, "skeleton DEX (dexasm) whose method is a seeded template of 5..8 concrete opcodes + payloads with symbolic branch offsets / switch targets / payload references / try start, count and handler addresses (3-4 symbolic quantities per template, full field width); the real DEX() + MethodAnalysis run on every path. Obligations: blocks partition the sweep, every target / try start / handler begins a block, only the last instruction branches", '5/C10-C12,C40', 'symbolic execution of DEX parsing + MethodAnalysis on skeleton overlays'),
+ 'C11': (MC, "skeleton DEX (dexasm) whose method is a seeded template of 5..8 concrete opcodes + payloads with symbolic branch offsets / switch targets / payload references / try start, count and handler addresses (3-4 symbolic quantities per template, full field width); the real DEX() + MethodAnalysis run on every path. Obligations: successor sets equal the targets the last instruction allows, each child block starts at its target, predecessor lists are the inverse", '5/C10-C12,C40', 'symbolic execution of DEX parsing + MethodAnalysis on skeleton overlays'),
+ 'C12': (MC, "skeleton DEX (dexasm) whose method is a seeded template of 5..8 concrete opcodes + payloads with symbolic branch offsets / switch targets / payload references / try start, count and handler addresses (3-4 symbolic quantities per template, full field width); the real DEX() + MethodAnalysis run on every path. Obligations: a block reports a try range iff it overlaps one, with that range and its handler blocks", '5/C10-C12,C40', 'symbolic execution of DEX parsing + MethodAnalysis on skeleton overlays'),
+ 'C40': (MC, "skeleton DEX (dexasm) whose method is a seeded template of 5..8 concrete opcodes + payloads with symbolic branch offsets / switch targets / payload references / try start, count and handler addresses (3-4 symbolic quantities per template, full field width); the real DEX() + MethodAnalysis run on every path. Obligations: block boundaries, edge and handler offsets are sweep offsets; get_special_ins is the payload at the encoded reference (aligned and misaligned)", '5/C10-C12,C40', 'symbolic execution of DEX parsing + MethodAnalysis on skeleton overlays'),
  'C23': (MC, "writer.string on strings of 0..2 (thorough 0..3) fully symbolic code points (0..0x10FFFF incl. lone surrogates); the produced literal is lexed by a Java unicode-escape + string-escape reference inside the same symbolic run and compared as UTF-16 code units", '5/C23', 'symbolic execution over symbolic strings with %x expanded to symbolic digits'),
  'C24': (MC, "decompiler.util.get_type and core.dex.get_type on class descriptors whose 1..13 (thorough 16) body characters are symbolic (any BMP character, '/' as separator), 0..2 array dimensions, all primitives", '5/C24', 'symbolic execution over symbolic strings (SStr, SymDict)'),
  'C38': (MC, "clean_file_name with every character symbolic for lengths 0..4 (thorough 0..6) and symbolic windows (prefix, cut region, tail) for lengths 229..600, unique on/off, first two isfile() answers arbitrary; the five clauses of the property on the returned symbolic string", '5/C38', 'symbolic execution with symbolic regex (SymRe), path model and arbitrary isfile predicate'),
